@@ -392,8 +392,84 @@ class C18(Check):
                     check(part.files(), ("write", e[1], True, i, nb))
             cur.apply(e)
             check(cur.files(), (e[0], e[1], False, i + 1, None))
+        # ---- the save is cut short by an exception that unwinds the stack (Ctrl-C while closing): KeyboardInterrupt is
+        # raised at the k-th write call of the save, for every k; with-blocks and finally clauses of the save run, then the
+        # process is gone.  Rebuilt in-process for every k.
+        import builtins
+        import rope.base.project as rp
+        from ..histops import apply_op
+
+        class _Cut:
+            def __init__(self, fh, counter, at):
+                self.fh, self.counter, self.at = fh, counter, at
+
+            def write(self, data):
+                self.counter[0] += 1
+                if self.counter[0] == self.at:
+                    self.fh.write(data[:max(1, len(data) // 2)])
+                    raise KeyboardInterrupt()
+                return self.fh.write(data)
+
+            def __enter__(self):
+                return self
+
+            def __exit__(self, *a):
+                self.fh.close()
+                return False
+
+            def __getattr__(self, name):
+                return getattr(self.fh, name)
+
+        k = 0
+        while k < 5000:
+            k += 1
+            d = self.scratch.new()
+            r2 = os.path.join(d, "proj")
+            os.mkdir(r2)
+            counter = [0]
+            interrupted = False
+            n_ = 0
+            try:
+                for si, session in enumerate(case["sessions"]):
+                    p_ = Project(r2, save_history=True, save_objectdb=True)
+                    for op in session:
+                        n_ += 1
+                        apply_op(p_, tuple(op), "c%d" % n_)
+                    if si < len(case["sessions"]) - 1:
+                        p_.close()
+                rp.open = lambda path, mode="r", *a, **kw: (_Cut(builtins.open(path, mode, *a, **kw), counter, k)
+                                                            if "w" in mode and str(path).endswith(".tmp") else builtins.open(path, mode, *a, **kw))
+                try:
+                    if case.get("save") == "sync":
+                        p_.sync()
+                    else:
+                        p_.close()
+                except KeyboardInterrupt:
+                    interrupted = True
+                finally:
+                    del rp.open
+                if not interrupted:
+                    self.scratch.drop(d)
+                    break
+                res["n"] += 1
+                prob, msg, hv, ov = self._observe(r2)
+                feats = ["at:interrupt-in-write", "unwinding-interrupt"]
+                detail = {"scenario": case, "interrupted_at_write_call": k}
+                if prob:
+                    res["fails"].append({"kind": prob, "features": feats, "detail": dict(detail, message=msg), "size": k})
+                else:
+                    if hv not in (hv_new, hv_old, empty_h):
+                        res["fails"].append({"kind": "history-torn", "features": feats, "size": k, "detail": dict(detail, got=repr(hv)[:600])})
+                    if ov is not None and ov not in (ov_new, ov_old, {}):
+                        res["fails"].append({"kind": "objectdb-torn", "features": feats, "size": k, "detail": dict(detail, got=repr(ov)[:600])})
+                    res["out"]["interrupt:ok"] = res["out"].get("interrupt:ok", 0) + 1
+            finally:
+                if hasattr(rp, "open"):
+                    del rp.open
+                self.scratch.drop(d)
+        res["mech"]["unwinding-interrupts"] = k - 1
         res["sample"] = {"scenario": case, "effects": [(e[0], e[1]) + ((len(e[3]),) if e[0] == "write" else ()) for e in effects],
-                         "crash_states": len(seen)}
+                         "crash_states": len(seen), "interrupted_write_calls": k - 1}
         self.scratch.drop(work)
         shutil.rmtree(root + ".pre", ignore_errors=True)
         return res
